@@ -13,13 +13,25 @@ def sh(cmd, cwd=None, env=None, timeout=3600):
     return p.returncode, p.stdout
 
 def main():
-    seeds = [int(x) for x in sys.argv[1:]] or [2, 3]
-    out_path = os.path.join(VERIF, 'seeded', 'catch_matrix.json')
+    seeds = [int(x) for x in sys.argv[1:] if x.isdigit()] or [2, 3]
+    # catch_matrix.py 1 --part 0/2   evaluates every second change (for running two workers side by side, each with its own output file)
+    part = next((a for a in sys.argv[1:] if '/' in a), None)
+    only = None
+    if part:
+        k, n = [int(x) for x in part.split('/')]
+        names = sorted(os.path.basename(d) for d in glob.glob(os.path.join(VERIF, 'seeded', 'C*-*')))
+        only = set(names[k::n])
+    out_path = os.path.join(VERIF, 'seeded', 'catch_matrix.json' if not part else 'catch_matrix.part%d.json' % k)
     matrix = json.load(open(out_path)) if os.path.exists(out_path) else {}
+    part_ = part
     for d in sorted(glob.glob(os.path.join(VERIF, 'seeded', 'C*-*'))):
         name = os.path.basename(d); pid = name.split('-')[0]
         patch = os.path.join(d, 'patch.diff')
         if not os.path.exists(patch): continue
+        meta = json.load(open(os.path.join(d, 'meta.json'))) if os.path.exists(os.path.join(d, 'meta.json')) else {}
+        if meta.get('obsolete'):
+            matrix.setdefault(name, {})['obsolete'] = meta['obsolete']; continue
+        if only and name not in only: continue
         scratch = tempfile.mkdtemp(prefix='hepmc_cm_')
         try:
             sh('git -C /repo archive HEAD | tar -x -C %s' % scratch)
